@@ -25,9 +25,9 @@ def _assigned_targets(body):
         elif isinstance(t, ast.Subscript):
             b = t.value
             if isinstance(b, ast.Name):
-                mutated.add(('local', b.id))
+                mutated.add(('local', b.id, 'setitem'))
             elif isinstance(b, ast.Attribute) and isinstance(b.value, ast.Name):
-                mutated.add(('attr', b.value.id, b.attr))
+                mutated.add(('attr', b.value.id, b.attr, 'setitem'))
         elif isinstance(t, ast.Starred):
             tgt(t.value)
 
@@ -53,9 +53,9 @@ def _assigned_targets(body):
                                     'setdefault', 'add'):
                 b = n.func.value
                 if isinstance(b, ast.Name):
-                    mutated.add(('local', b.id))
+                    mutated.add(('local', b.id, 'resize'))
                 elif isinstance(b, ast.Attribute) and isinstance(b.value, ast.Name):
-                    mutated.add(('attr', b.value.id, b.attr))
+                    mutated.add(('attr', b.value.id, b.attr, 'resize'))
             elif isinstance(n, ast.Delete):
                 for t in n.targets:
                     tgt(t)
@@ -192,21 +192,25 @@ class LoopMixin:
 
     def _havoc_containers(self, mutated, node):
         fr = self.frames[-1]
+        how = {}
         for m in mutated:
+            key = m[:-1]
+            how.setdefault(key, set()).add(m[-1])
+        for key, kinds in how.items():
             v = None
-            if m[0] == 'local':
-                v = fr.locals.get(m[1])
-            elif m[0] == 'attr' and m[1] == 'self' and isinstance(fr.self_obj, ObjV):
-                v = fr.self_obj.fields.get(m[2])
+            if key[0] == 'local':
+                v = fr.locals.get(key[1])
+            elif key[0] == 'attr' and key[1] == 'self' and isinstance(fr.self_obj, ObjV):
+                v = fr.self_obj.fields.get(key[2])
             if isinstance(v, ListV):
                 if v.items is not None:
                     v.prev_items = list(v.items)
                     v.elem = self.join_many(v.items) if v.items else v.elem
                 v.items = None
-                s = self.fresh('n')
-                lo = self.store.lo(v.len) if v.len is not None else 0
-                self.store.declare(s, 0, None)
-                v.len = Lin.sym(s)
+                if 'resize' in kinds or v.len is None:
+                    s = self.fresh('n')
+                    self.store.declare(s, 0, None)
+                    v.len = Lin.sym(s)
                 v.loop_open = True
             elif isinstance(v, DictV):
                 v.open = True
@@ -417,6 +421,7 @@ class LoopMixin:
             self.exec_block(st.orelse)
             return
         if self.an.mode == 'unroll':
+            self.event('for-iter', st, iterable=itv)
             return self._for_unroll(st, itv)
         tnames = set()
         for n in ast.walk(st.target):
